@@ -268,20 +268,20 @@ type verifC39World struct {
 	serial   int
 
 	wantDelta int // delta-phase writes to see before the fence is issued
-	phase   int // 0 before migration, 1 delta, 2 fenced, 3 done (ownership switched)
-	stopVar bool
-	capture bool
-	fwdOn   bool
+	phase     int // 0 before migration, 1 delta, 2 fenced, 3 done (ownership switched)
+	stopVar   bool
+	capture   bool
+	fwdOn     bool
 
 	model  *verifC39Model // every accepted write for the migrating hash slot, in order
 	tmodel *verifC39Model // what the target must hold: snapshot + first-delivered deltas
 	ctl    *verifC39Model // control hash slot that does not migrate
 
-	outbox    []verifC39Row // rows the source must have produced, ascending
-	applied   []bool        // per outbox position: applied at the target (first delivery happened)
-	acked     []bool        // per outbox position: acked at the source (acks are per row)
-	inflight  []int         // outbox positions whose live forward is delayed in the network
-	cursorIdx uint64        // replay cursor: every row with index <= cursor has been applied
+	outbox    []verifC39Row                          // rows the source must have produced, ascending
+	applied   []bool                                 // per outbox position: applied at the target (first delivery happened)
+	acked     []bool                                 // per outbox position: acked at the source (acks are per row)
+	inflight  []int                                  // outbox positions whose live forward is delayed in the network
+	cursorIdx uint64                                 // replay cursor: every row with index <= cursor has been applied
 	own       *verifC39Model                         // the target's own hash slot 7
 	tasks     map[string]metadb.ChannelMigrationTask // channel-migration tasks created in hash slot 7, by channel
 	now       int64
@@ -289,13 +289,13 @@ type verifC39World struct {
 	pendFwd   *multiraft.Command
 	cleaned   bool
 
-	nPreWrites, nDeltaWrites, nFenced, nDoneWrites, nDup, nDupInBatch, nDupAfterSwitch, nLive, nLiveDropped int
-	nBurst                                                                                                          int
+	nPreWrites, nDeltaWrites, nFenced, nDoneWrites, nDup, nDupInBatch, nDupAfterSwitch, nLive, nLiveDropped       int
+	nBurst                                                                                                        int
 	nPump, nRestartT, nRestartS, nOrchRestart, nMisPre, nMisPost, nReFence, nAck, nDupAck, nCtl, nDupAfterRestart int
-	sinceRestartT                                                                                                   bool
+	sinceRestartT                                                                                                 bool
 	nOvertake, nDelayed, nLateFwd, nLateFwdDup, nAckOverUndelivered, nAckGap                                      int
-	nMixed, nSplitFirst, nSplitDup, nCondOK, nFaultErr, nFaultFirst, nFaultSame, nFaultRestart, nFaultPartial      int
-	log                                                                                                             []string
+	nMixed, nSplitFirst, nSplitDup, nCondOK, nFaultErr, nFaultFirst, nFaultSame, nFaultRestart, nFaultPartial     int
+	log                                                                                                           []string
 }
 
 func (w *verifC39World) fail(format string, args ...any) {
@@ -335,10 +335,6 @@ func (w *verifC39World) srcApply(hs uint16, data []byte) (string, error) {
 	w.pendFwd = nil
 	res, err := w.src.Apply(context.Background(), multiraft.Command{SlotID: verifC39Src, HashSlot: hs, Index: w.sIdx, Term: 1, Data: data})
 	return string(res), err
-}
-
-func (w *verifC39World) tgtApplyBatch(cmds []multiraft.Command) ([][]byte, error) {
-	return w.tgt.ApplyBatch(context.Background(), cmds)
 }
 
 func (w *verifC39World) checkEqual(what string, db *metadb.DB, hs uint16, want *verifC39Model) {
@@ -765,7 +761,7 @@ func (w *verifC39World) pump(k int, dups []int, repeatFirst ...int) bool {
 	// rows the listing must contain
 	var expect []int
 	for p, r := range w.outbox {
-		if !w.cleaned && r.idx > w.cursorIdx && p >= w.ackedPos && len(expect) < k {
+		if !w.cleaned && r.idx > w.cursorIdx && !w.acked[p] && len(expect) < k {
 			expect = append(expect, p)
 		}
 	}
@@ -815,7 +811,7 @@ func (w *verifC39World) appliedPositions() []int {
 func (w *verifC39World) actWriteH(rt *rapid.T) {
 	w.rt = rt
 	w.serial++
-	w.writeH(rt, verifC39GenWrite(rt, w.serial), rapid.Bool().Draw(rt, "liveForward"))
+	w.writeH(rt, verifC39GenWrite(rt, w.serial), w.drawFwd("liveForward"))
 }
 
 // actBurst: several delta-phase writes to the SAME key with different values,
@@ -841,13 +837,13 @@ func (w *verifC39World) actBurst(rt *rapid.T) {
 		default:
 			wr = verifC39Write{kind: []string{"addSubs", "removeSubs"}[i%2], chID: ch, uids: []string{uid}}
 		}
-		w.writeH(rt, wr, false)
+		w.writeH(rt, wr, verifC39FwdLost)
 	}
 	w.nBurst++
 	w.pump(8, nil, -n)
 }
 
-func (w *verifC39World) writeH(rt *rapid.T, wr verifC39Write, live bool) {
+func (w *verifC39World) writeH(rt *rapid.T, wr verifC39Write, fwd int) {
 	if w.phase == 3 {
 		// the target owns the hash slot now
 		w.tIdx++
@@ -890,34 +886,95 @@ func (w *verifC39World) writeH(rt *rapid.T, wr verifC39Write, live bool) {
 	w.nDeltaWrites++
 	w.outbox = append(w.outbox, verifC39Row{idx: w.sIdx, data: wr.encode(), write: &wr})
 	w.applied = append(w.applied, false)
+	w.acked = append(w.acked, false)
 	w.expectOutbox()
 	if st, ok := w.migState(); !ok || st.LastOutboxIndex != w.sIdx || st.SourceSlot != verifC39Src || st.TargetSlot != verifC39Tgt {
 		w.fail("migration state after delta write at index %d is %+v (present=%v)", w.sIdx, st, ok)
 	}
-	w.afterSourceRow(live)
+	w.afterSourceRow(fwd)
 }
 
-// afterSourceRow: the live forwarder delivers the row right away when it is
-// the next one in order; otherwise the forward is lost and the outbox replay
-// has to carry it.
-func (w *verifC39World) afterSourceRow(live bool) {
+const (
+	verifC39FwdLive    = iota // the forward reaches the target at once
+	verifC39FwdLost           // the forward fails (the state machine ignores the error); the outbox replay has to carry the row
+	verifC39FwdDelayed        // the forward is in the network and arrives later, possibly after newer rows
+)
+
+func (w *verifC39World) drawFwd(label string) int {
+	switch v := rapid.IntRange(0, 9).Draw(w.rt, label); {
+	case v < 5:
+		return verifC39FwdLive
+	case v < 8:
+		return verifC39FwdLost
+	}
+	return verifC39FwdDelayed
+}
+
+// forwardArrives: one live forward reaches the target. A row that would
+// overtake an undelivered earlier write to the same key is treated as lost
+// (that reordering is outside the contract).
+func (w *verifC39World) forwardArrives(what string, pos int) bool {
+	if !w.applied[pos] {
+		if ok, _ := w.canFirstDeliver(pos); !ok {
+			return false
+		}
+	}
+	w.deliver(what, []int{pos})
+	// the replay cursor follows only while everything before the row is applied
+	if w.outbox[pos].idx > w.cursorIdx && (pos == 0 || w.outbox[pos-1].idx <= w.cursorIdx) {
+		w.cursorIdx = w.outbox[pos].idx
+	}
+	return true
+}
+
+// afterSourceRow: the source state machine called the forwarder for the row
+// it just committed; each forward is delivered, lost or delayed on its own.
+func (w *verifC39World) afterSourceRow(fwd int) {
 	if w.pendFwd == nil {
 		return
 	}
-	fwd := w.pendFwd
+	got := w.pendFwd
 	w.pendFwd = nil
 	pos := len(w.outbox) - 1
-	if fwd.Index != w.outbox[pos].idx || !bytes.Equal(fwd.Data, w.outbox[pos].data) || fwd.SlotID != verifC39Src {
+	if got.Index != w.outbox[pos].idx || !bytes.Equal(got.Data, w.outbox[pos].data) || got.SlotID != verifC39Src {
 		w.fail("forwarded delta is (slot %d index %d, %d bytes), want the committed command (slot %d index %d, %d bytes)",
-			fwd.SlotID, fwd.Index, len(fwd.Data), verifC39Src, w.outbox[pos].idx, len(w.outbox[pos].data))
+			got.SlotID, got.Index, len(got.Data), verifC39Src, w.outbox[pos].idx, len(w.outbox[pos].data))
 	}
-	inOrder := pos == w.firstUnapplied() && (pos == 0 || w.cursorIdx >= w.outbox[pos-1].idx)
-	if live && inOrder {
-		w.deliver("live", []int{pos})
-		w.cursorIdx = w.outbox[pos].idx
-		w.nLive++
-	} else {
+	switch fwd {
+	case verifC39FwdLive:
+		if w.forwardArrives("live", pos) {
+			w.nLive++
+		} else {
+			w.nLiveDropped++
+		}
+	case verifC39FwdDelayed:
+		w.inflight = append(w.inflight, pos)
+		w.nDelayed++
+		w.log = append(w.log, fmt.Sprintf("delayed[%d]", pos))
+	default:
 		w.nLiveDropped++
+	}
+}
+
+// actLateForward: a delayed live forward finally reaches the target.
+func (w *verifC39World) actLateForward(rt *rapid.T) {
+	w.rt = rt
+	if len(w.inflight) == 0 {
+		rt.Skip()
+	}
+	i := rapid.IntRange(0, len(w.inflight)-1).Draw(rt, "inflight")
+	pos := w.inflight[i]
+	w.inflight = append(w.inflight[:i:i], w.inflight[i+1:]...)
+	wasApplied := w.applied[pos]
+	if !w.forwardArrives("late", pos) {
+		w.nLiveDropped++
+		w.log = append(w.log, fmt.Sprintf("late-lost[%d]", pos))
+		return
+	}
+	if wasApplied {
+		w.nLateFwdDup++
+	} else {
+		w.nLateFwd++
 	}
 }
 
@@ -1000,6 +1057,7 @@ func (w *verifC39World) fence() {
 	w.fenceIdx = w.sIdx
 	w.outbox = append(w.outbox, verifC39Row{idx: w.sIdx, data: data})
 	w.applied = append(w.applied, false)
+	w.acked = append(w.acked, false)
 	w.phase = 2
 	w.log = append(w.log, "FENCE")
 	st, ok := w.migState()
@@ -1008,7 +1066,7 @@ func (w *verifC39World) fence() {
 	}
 	w.expectOutbox()
 	if w.capture {
-		w.afterSourceRow(rapid.Bool().Draw(w.rt, "liveFence"))
+		w.afterSourceRow(w.drawFwd("liveFence"))
 	} else {
 		if w.pendFwd != nil {
 			w.fail("snapshot-phase fence was forwarded before the target accepts deltas")
@@ -1099,23 +1157,60 @@ func (w *verifC39World) actDup(rt *rapid.T) {
 	w.deliver("dup", batch)
 }
 
+// ackedPrefixEnd is the source index up to which every row is acked.
+func (w *verifC39World) ackedPrefixEnd() uint64 {
+	end := uint64(0)
+	for p, r := range w.outbox {
+		if !w.acked[p] {
+			break
+		}
+		end = r.idx
+	}
+	return end
+}
+
+func (w *verifC39World) ackRow(rt *rapid.T, p int) {
+	idx := w.outbox[p].idx
+	if rapid.Bool().Draw(rt, "replicatedAck") {
+		res, err := w.srcApply(verifC39H, EncodeAckHashSlotMigrationOutboxCommand(verifC39H, verifC39Src, verifC39Tgt, idx))
+		if err != nil || res != ApplyResultOK {
+			w.fail("replicated ack of index %d answered %q %v", idx, res, err)
+		}
+	} else if err := w.src.AckHashSlotMigrationOutbox(context.Background(), verifC39H, verifC39Src, verifC39Tgt, idx); err != nil {
+		w.fail("ack of index %d failed: %v", idx, err)
+	}
+}
+
+// actAck: acks are per row and only for rows the target has applied. They
+// come in source order or - a later forward was confirmed while an earlier row
+// is still unconfirmed or even undelivered - out of order.
 func (w *verifC39World) actAck(rt *rapid.T) {
 	w.rt = rt
 	if w.cleaned {
 		rt.Skip()
 	}
-	ctx := context.Background()
-	// only rows the target has applied and the orchestrator has sent may be acked
-	limit := 0
-	for limit < len(w.outbox) && w.applied[limit] && w.outbox[limit].idx <= w.cursorIdx {
-		limit++
+	var cand, gapCand, ackedRows []int
+	gap := false
+	for p := range w.outbox {
+		switch {
+		case w.acked[p]:
+			ackedRows = append(ackedRows, p)
+		case w.applied[p]:
+			cand = append(cand, p)
+			if gap {
+				gapCand = append(gapCand, p)
+			}
+			gap = true
+		default:
+			gap = true
+		}
 	}
-	if w.ackedPos >= limit {
-		if w.ackedPos == 0 {
+	if len(cand) == 0 {
+		if len(ackedRows) == 0 {
 			rt.Skip()
 		}
-		// duplicate ack of the last acked row
-		idx := w.outbox[w.ackedPos-1].idx
+		// duplicate ack of an already acked row
+		idx := w.outbox[rapid.SampledFrom(ackedRows).Draw(rt, "dupAckPos")].idx
 		if _, err := w.srcApply(verifC39H, EncodeAckHashSlotMigrationOutboxCommand(verifC39H, verifC39Src, verifC39Tgt, idx)); err != nil {
 			w.fail("duplicate replicated ack of index %d failed: %v", idx, err)
 		}
@@ -1124,24 +1219,37 @@ func (w *verifC39World) actAck(rt *rapid.T) {
 		w.expectOutbox()
 		return
 	}
-	n := rapid.IntRange(1, limit-w.ackedPos).Draw(rt, "ackN")
-	for i := 0; i < n; i++ {
-		idx := w.outbox[w.ackedPos].idx
-		if rapid.Bool().Draw(rt, "replicatedAck") {
-			res, err := w.srcApply(verifC39H, EncodeAckHashSlotMigrationOutboxCommand(verifC39H, verifC39Src, verifC39Tgt, idx))
-			if err != nil || res != ApplyResultOK {
-				w.fail("replicated ack of index %d answered %q %v", idx, res, err)
-			}
-		} else if err := w.src.AckHashSlotMigrationOutbox(ctx, verifC39H, verifC39Src, verifC39Tgt, idx); err != nil {
-			w.fail("ack of index %d failed: %v", idx, err)
-		}
-		w.ackedPos++
-		w.nAck++
+	var picks []int
+	if len(gapCand) > 0 && rapid.IntRange(0, 9).Draw(rt, "ackOutOfOrder") < 6 {
+		picks = []int{rapid.SampledFrom(gapCand).Draw(rt, "ackPos")}
+	} else {
+		picks = cand[:rapid.IntRange(1, len(cand)).Draw(rt, "ackN")]
 	}
-	w.log = append(w.log, fmt.Sprintf("ACK<%d", w.ackedPos))
-	w.expectOutbox()
-	if st, ok := w.migState(); !ok || st.LastAckedIndex != w.outbox[w.ackedPos-1].idx {
-		w.fail("migration state after acks is %+v (present=%v), want LastAckedIndex %d", st, ok, w.outbox[w.ackedPos-1].idx)
+	for _, p := range picks {
+		undelivered, unacked := false, false
+		for q := 0; q < p; q++ {
+			undelivered = undelivered || !w.applied[q]
+			unacked = unacked || !w.acked[q]
+		}
+		if undelivered {
+			w.nAckOverUndelivered++
+		} else if unacked {
+			w.nAckGap++
+		}
+		w.ackRow(rt, p)
+		w.acked[p] = true
+		w.nAck++
+		w.log = append(w.log, fmt.Sprintf("ACK[%d]", p))
+		w.expectOutbox()
+	}
+	maxAcked := uint64(0)
+	for p, r := range w.outbox {
+		if w.acked[p] {
+			maxAcked = r.idx
+		}
+	}
+	if st, ok := w.migState(); !ok || st.LastAckedIndex != maxAcked {
+		w.fail("migration state after acks is %+v (present=%v), want LastAckedIndex %d", st, ok, maxAcked)
 	}
 }
 
@@ -1150,13 +1258,11 @@ func (w *verifC39World) actOrchRestart(rt *rapid.T) {
 	if w.phase == 0 || w.cleaned {
 		rt.Skip()
 	}
-	// a restarted orchestrator only knows the durable ack watermark
-	st, ok := w.migState()
+	// a restarted orchestrator replays whatever is still in the outbox: its
+	// cursor falls back to the end of the acked prefix (acks are per row, so
+	// LastAckedIndex alone does not say that everything before it is done)
 	old := w.cursorIdx
-	w.cursorIdx = 0
-	if ok {
-		w.cursorIdx = st.LastAckedIndex
-	}
+	w.cursorIdx = w.ackedPrefixEnd()
 	if w.cursorIdx == old {
 		rt.Skip()
 	}
@@ -1164,14 +1270,18 @@ func (w *verifC39World) actOrchRestart(rt *rapid.T) {
 	w.log = append(w.log, "ORCH-RESTART")
 }
 
-func (w *verifC39World) actRestartTarget(rt *rapid.T) {
-	w.rt = rt
+func (w *verifC39World) restartTarget() {
 	w.tgt = w.newSM(w.dbT, verifC39Tgt, w.tgtOwned)
 	if w.phase == 1 || w.phase == 2 {
 		w.tgt.UpdateIncomingDeltaHashSlots([]uint16{verifC39H})
 	}
 	w.sinceRestartT = true
 	w.nRestartT++
+}
+
+func (w *verifC39World) actRestartTarget(rt *rapid.T) {
+	w.rt = rt
+	w.restartTarget()
 	w.log = append(w.log, "RESTART-T")
 }
 
@@ -1246,6 +1356,7 @@ func (w *verifC39World) finish(rt *rapid.T) {
 		w.deliver("final-replay", ap)
 	}
 	w.checkEqual("end (target holds every accepted write exactly once)", w.dbT, verifC39H, w.model)
+	w.checkOwn("end")
 	w.checkEqual("end (control hash slot on the source)", w.dbS, verifC39Ctl, w.ctl)
 	if got := verifC39ReadHS(rt, w.dbT, verifC39Ctl); !got.empty() {
 		w.fail("target holds rows of the non-migrating hash slot: %s", got.describe())
@@ -1268,7 +1379,8 @@ func TestVerifC39Migration(t *testing.T) {
 		}
 		defer dbT.Close()
 		w := &verifC39World{rt: rt, dbS: dbS, dbT: dbT, srcOwned: []uint16{verifC39H, verifC39Ctl}, tgtOwned: []uint16{verifC39TgtOwn},
-			model: verifC39NewModel(), ctl: verifC39NewModel(), stopVar: rapid.IntRange(0, 9).Draw(rt, "variant") < 2,
+			model: verifC39NewModel(), ctl: verifC39NewModel(), own: verifC39NewModel(), tasks: map[string]metadb.ChannelMigrationTask{},
+			now: 1750000001000, stopVar: rapid.IntRange(0, 9).Draw(rt, "variant") < 2,
 			wantDelta: rapid.IntRange(0, 7).Draw(rt, "wantDelta")}
 		w.src = w.newSM(dbS, verifC39Src, w.srcOwned)
 		w.tgt = w.newSM(dbT, verifC39Tgt, w.tgtOwned)
@@ -1292,6 +1404,8 @@ func TestVerifC39Migration(t *testing.T) {
 			"restartSource": w.actRestartSource,
 			"reFence":       w.actReFence,
 			"burst":         w.actBurst,
+			"lateForward":   w.actLateForward,
+			"ack2":          w.actAck,
 		})
 		dupsBeforeFinish, dupsAfterSwitch := w.nDup, w.nDupAfterSwitch
 		w.finish(rt)
@@ -1313,9 +1427,24 @@ func TestVerifC39Migration(t *testing.T) {
 		k.LabelIf(w.nBurst > 0, "same-key burst replayed with an in-batch retry of its first delta")
 		k.LabelIf(w.nDupAfterRestart > 0, "duplicate delta after a target restart")
 		k.LabelIf(dupsAfterSwitch > 0, "duplicate delta after the switch (besides the final replay)")
-		k.LabelIf(w.nOrchRestart > 0, "orchestrator restart (cursor back to last ack)")
+		k.LabelIf(w.nOrchRestart > 0, "orchestrator restart (cursor back to the end of the acked prefix)")
 		k.LabelIf(w.nRestartS > 0, "source state machine restart")
 		k.LabelIf(w.nAck > 0, "outbox rows acked")
+		k.LabelIf(w.nOvertake > 0, "later delta applied while an earlier (commuting) one is undelivered")
+		k.LabelIf(w.nDelayed > 0, "live forward delayed")
+		k.LabelIf(w.nLateFwd > 0, "delayed forward arrives as first delivery")
+		k.LabelIf(w.nLateFwdDup > 0, "delayed forward arrives after the replay delivered the row")
+		k.LabelIf(w.nAckOverUndelivered > 0, "row acked while an earlier row is still undelivered")
+		k.LabelIf(w.nAckGap > 0, "row acked while an earlier delivered row is unacked")
+		k.LabelIf(w.nMixed > 0, "delta batch shared with commands of the target's own hash slot")
+		k.LabelIf(w.nSplitFirst > 0, "first-delivery delta in a batch re-applied command by command (sibling guard failed at commit)")
+		k.LabelIf(w.nSplitDup > 0, "duplicate-only delta batch re-applied command by command")
+		k.LabelIf(w.nCondOK > 0, "conditional sibling command succeeded")
+		k.LabelIf(w.nFaultErr > 0, "apply batch cancelled and retried")
+		k.LabelIf(w.nFaultFirst > 0, "cancelled batch carried a first-delivery delta")
+		k.LabelIf(w.nFaultPartial > 0, "cancelled batch left a durable prefix")
+		k.LabelIf(w.nFaultSame > 0, "cancelled batch retried on the same state machine")
+		k.LabelIf(w.nFaultRestart > 0, "cancelled batch retried on a re-created state machine")
 		k.LabelIf(w.nDupAck > 0, "duplicate ack")
 		k.LabelIf(w.nReFence > 0, "fence re-issued")
 		k.LabelIf(w.cleaned, "outbox cleaned up after the switch")
